@@ -94,6 +94,12 @@ def split_findings(prop, findings):
 
 
 RULE_GLOSSARY = {
+    'MUTABLE-DEFAULT': 'generic pack: a parameter default bound to a mutable display is never modified, stored or passed on',
+    'LOOP-BREAK': 'generic pack: an exception handler inside a per-element loop skips the element (continue), it never leaves the loop',
+    'LOOP-COUNTER': 'generic pack: a counter that limits work per element is reset inside the per-element loop',
+    'GUARD-FAMILY': 'generic pack: an `a_x or a_y` guard names every flag of the family that its block consumes',
+    'MEMO-STALE': 'generic pack: a hand-rolled `if self._m is None` memo is reset wherever its inputs are written',
+    'A2-PROP': 'generic pack: a property getter (plain or lazy) modifies no stored array of its object in place (E-ALIAS summary)',
     'A1': 'ownership/alias may-analysis: no caller-owned object (or view, or field holding it) reaches an in-place sink',
     'A1-field': 'fields that store a caller object are not mutated (or the site is a named, reasoned exemption)',
     'A2': 'getters / stateless helpers modify no stored array or container in place',
